@@ -69,8 +69,11 @@ class TupleSub(tuple):
 
 
 class Scope(dict):
-    """stands for glom's scope mapping in the heap encoding (S-rooted paths); the real
-    object handed to glom(scope=...) is a plain dict with the same items"""
+    """stands for the scope FRAME an S-rooted destination starts from (`scope[UP]`) in the heap
+    encoding: before the call it holds the caller's scope variables; the object handed to
+    glom(scope=...) is a plain dict of its own with the same items (glom copies them into its root
+    frame and never writes the caller's mapping: observed as `scope_kept`); after the call the cell is
+    re-encoded from what a later step of the same chain sees of the scope (`Peek`), when there is one"""
 
 
 CLASSES = OrderedDict((c.__name__, c) for c in [
@@ -742,6 +745,34 @@ def choose_style(rng, steps, sroot):
     if sroot:
         styles = ['t', 't', 'mixed']
     return rng.choice(styles)
+
+
+S_FIRST_PLAIN_P = 0.35
+
+
+def s_first(rng, sp, p=S_FIRST_PLAIN_P):
+    """spelling of the first step of an S-rooted path: with probability `p` as `S.name` / `Path(S, name)`
+    (plain), else as `S[name]` — all three name the scope variable `name`"""
+    parts = sp.get('parts')
+    if not parts:
+        return sp
+    first = parts[0]
+    key = first['seg'] if 'seg' in first else (first['t'][0][1] if first.get('t') else None)
+    rest = [] if 'seg' in first else first['t'][1:]
+    if 'seg' not in first and not first.get('t'):
+        return sp
+    if rng.random() < p:
+        if isinstance(key, dict) and 's' in key and rng.random() < 0.5 and 'seg' not in first:
+            new = {'t': [['.', key]] + rest}
+        elif 'seg' in first or not rest:
+            new = {'seg': key}
+        else:
+            new = first
+    elif 'seg' in first:
+        new = {'t': [['[', key]]}
+    else:
+        new = {'t': [['[' if first['t'][0][0] in ('.', 'P') else first['t'][0][0], key]] + rest}
+    return {'parts': [new] + parts[1:]}
 
 
 def make_scope(rng, heap, root):
